@@ -461,20 +461,77 @@ func (w *IPWalk) ret(key ipKey, s ipState, r *ssa.Return, push func(ipKey, ipSta
 			okRet = true
 		}
 	}
+	// boolean results: their truth in the caller, given what is known about the error result
+	errIdx := errResultIndex(ctx.Fn)
+	dependsOnErr := false
+	boolResults := func(errNil *bool) map[int]bool {
+		m := map[int]bool{}
+		for i := range r.Results {
+			if !isBoolType(r.Results[i].Type()) {
+				continue
+			}
+			o := strip(retOperand(r, i))
+			if kn, t := s.fx.known(o); kn {
+				m[i] = t
+				continue
+			}
+			bo, ok := o.(*ssa.BinOp)
+			if !ok || (bo.Op != token.EQL && bo.Op != token.NEQ) || errIdx < 0 || errIdx >= len(r.Results) {
+				continue
+			}
+			ev := strip(retOperand(r, errIdx))
+			var other ssa.Value
+			switch {
+			case isNilConst(bo.Y):
+				other = strip(bo.X)
+			case isNilConst(bo.X):
+				other = strip(bo.Y)
+			}
+			if other == nil || other != ev {
+				continue
+			}
+			dependsOnErr = true
+			if errNil != nil {
+				m[i] = *errNil == (bo.Op == token.EQL)
+			}
+		}
+		return m
+	}
 	switch site := ctx.Site.(type) {
 	case *ssa.Call:
 		b := site.Block()
 		for i, in := range b.Instrs {
 			if in == ssa.Instruction(site) {
-				ns := ipState{ctx: ctx.Parent, b: b, i: i + 1, st: s.st, fx: s.fx}
-				if failedRet {
-					ns.failed = site
-					ns.fx = ns.fx.withErrResult(site, false)
-				} else if okRet {
-					ns.okSite = site
-					ns.fx = ns.fx.withErrResult(site, true)
+				mk := func(failed, ok bool) ipState {
+					ns := ipState{ctx: ctx.Parent, b: b, i: i + 1, st: s.st, fx: s.fx.dropCallResults(site)}
+					var en *bool
+					if failed {
+						ns.failed = site
+						ns.fx = ns.fx.withErrResult(site, false)
+						f := false
+						en = &f
+					} else if ok {
+						ns.okSite = site
+						ns.fx = ns.fx.withErrResult(site, true)
+						t := true
+						en = &t
+					}
+					for idx, truth := range boolResults(en) {
+						ns.fx = ns.fx.withBoolResult(site, idx, truth)
+					}
+					return ns
 				}
-				push(key, ns)
+				if !failedRet && !okRet {
+					boolResults(nil)
+					if dependsOnErr {
+						// a boolean result is computed from the error result ("return err == nil, err"): explore
+						// the two cases separately so that the caller sees them correlated
+						push(key, mk(true, false))
+						push(key, mk(false, true))
+						continue
+					}
+				}
+				push(key, mk(failedRet, okRet))
 			}
 		}
 	case *ssa.Defer:
